@@ -7,7 +7,9 @@ MANIFEST = {
     "text": "TLC checks the independently stated clauses of C10 (less-than-n exact + progress = value/n -- on unsigned "
             "counters and on SIGNED lenses (an f64 state in halves, an i32 state) with negative, zero (+0.0 and -0.0) and "
             "fractional bounds and values: true exactly while value < n for every sign combination, progress value/n "
-            "with its sign, value/+-0 as the arithmetic defines it; a loop driven by such a condition, whose body raises "
+            "with its sign, value/+-0 as the arithmetic defines it; on the float lenses the value seen and the bound may be NOT A "
+            "NUMBER: unordered operands are never 'below' -- LessThanUnordered --, progress is then not a number, a loop "
+            "tested on such a value stops at once -- SLoopUnordered --, change-of sees NaN differ from everything; a loop driven by such a condition, whose body raises "
             "the value by d per pass, makes exactly the passes the statement implies, tests once more and counts them "
             "-- SLoopExact --, every-n on "
             "multiples, change-of against the value last reported incl. a history variable for all value histories "
@@ -38,11 +40,12 @@ MANIFEST = {
             "through later replies; random-chance is a 6-sigma frequency test",
 }
 
-PROPS = ("UnreadableIsError LessThanExact EveryExact ChangeExact OptimumExact ChanceCounted LogicExact "
+PROPS = ("UnreadableIsError LessThanExact LessThanUnordered SLoopUnordered EveryExact ChangeExact OptimumExact ChanceCounted LogicExact "
          "LoopExact LoopFromAnywhere SLoopExact NestExact NestOwnCounter ScopeIsolates")
 
 ALL_LENS = ["iter", "eval", "fval", "obj", "sval", "ival"]
 SOFF = 100000      # code of the number 0 on the signed lenses (Conditions.tla, SOff)
+NANV = 900000      # code of "not a number" on the float lenses (Conditions.tla, NaNV)
 
 
 def tla_set(xs):
@@ -107,17 +110,18 @@ def models(q):
         ("two", dict(lens=["iter", "eval"], val=[0, 1] if q else [0, 1, 2], ns=[2], ds=[1] if q else [1, 2],
                      ops=["set", "lt", "every", "co"])),
         # f64 lens
-        ("fval", dict(lens=["fval"], val=[0, 1, 2, 3], ns=[0, 1, 2], ops=["set", "lt", "co"])),
+        # ("nan": the value seen / the bound may be not-a-number on the float lenses: unordered operands)
+        ("fval", dict(lens=["fval"], val=[0, 1, 2, 3], ns=[0, 1, 2], ops=["set", "lt", "co", "nan"])),
         # signed f64 lens (values and bounds in halves: -1.5 .. 1.5, both zeros): all (n, value) pairs of
         # less-than-n for every sign combination; loops raising the value by 1 or 2 halves towards every bound
         ("sval", dict(lens=["sval"], val=range(SOFF - 3, SOFF + (4 if q else 5)), ns=range(SOFF - 3, SOFF + (3 if q else 4)),
-                      ds=[1, 2], ops=["set", "lt", "sloop"])),
+                      ds=[1, 2], ops=["set", "lt", "sloop", "nan"])),
         # signed integer lens (i32), next to the loop's own counter
         ("ival", dict(lens=["ival", "iter"], val=[0] + list(range(SOFF - 2, SOFF + 2)),
                       ns=range(SOFF - 1, SOFF + 2), ds=[1, 2], ops=["set", "lt", "sloop"])),
         # change-of on the signed lenses: differences across zero with both checkers (i32), +0.0 / -0.0 are one value (f64)
         ("sco", dict(lens=["ival"], val=range(SOFF - 2, SOFF + 3), ds=[0, 1, 2, 3], ops=["set", "co"])),
-        ("scof", dict(lens=["sval"], val=range(SOFF - 1, SOFF + 2), ops=["set", "co"])),
+        ("scof", dict(lens=["sval"], val=range(SOFF - 1, SOFF + 2), ops=["set", "co", "nan"])),
         # best-objective lens: change-of with both checkers, optimum-reached on a lattice straddling opt + eps
         ("obj", dict(lens=["obj"], val=[0, 1, 2, 3], ds=[1, 2], eps=[0, 1], opts=[0, 1],
                      ops=["set", "co", "optimum"])),
@@ -240,6 +244,10 @@ def run(ctx):
                  "reply of less-than-n with a negative bound")
     vlib.vacuity([e for e in signed if e["act"]["op"] == "sloop" and e["res"]["k"] == "ok"], "res.p", [0, 1, 2, 3],
                  "passes of a loop on a signed lens")
+    nan_v = [e for e in all_edges if e["act"]["op"] in ("lt", "sloop", "co") and e["from"]["obs"].get(e["act"]["l"]) == NANV]
+    vlib.vacuity(nan_v, "act.op", ["lt", "sloop", "co"], "call on a value that is not a number")
+    vlib.vacuity([e for e in all_edges if e["act"]["op"] == "lt" and e["act"]["n"] == NANV], "act.l", ["fval", "sval"],
+                 "less-than-n with a bound that is not a number")
     vlib.vacuity(all_edges, "res.k", ["ok", "err", "bool", "ctor_err"], "reply kind")
     for op in ("lt", "every", "co", "optimum", "optimum_at", "rc", "logic"):
         vlib.vacuity([e for e in all_edges if e["act"]["op"] == op], "res.b", [0, 1], "reply of " + op)
